@@ -11,6 +11,7 @@ mod determinism_seam;
 mod driver;
 mod rng;
 mod s1;
+mod s2;
 mod sched;
 
 use std::process::exit;
